@@ -257,7 +257,11 @@ var gatedFeatures = []struct {
 	}},
 	{name: "digitName", need: "0.5.0", devOnly: true, put: func(doc obj, dev int) {
 		d := devicesOf(doc)[dev].(obj)
-		d["name"] = "0" + d["name"].(string)
+		if n := d["name"].(string); len(n)%2 == 0 {
+			d["name"] = "0" + n
+		} else {
+			d["name"] = string(rune('1' + dev)) // a one-character name that is a digit
+		}
 	}},
 	{name: "annotations", need: "0.6.0", put: func(doc obj, dev int) {
 		if dev < 0 {
